@@ -25,7 +25,13 @@ def run(ctx):
     import athlib
     from athlib import codes
     rows = [AC.Row(dict(gender=r['gender'], event_code=r['event_code'], A=r['A'], Z=r['Z'], X=r['X'])) for r in side['table']]
-    pairs = [(r.gender, r.event) for r in rows] + [('X', '100'), ('M', 'XYZ'), ('F', '110H'), ('M', '80H'), ('m', '100'), ('f', 'lj')]
+    pairs = [(r.gender, r.event) for r in rows] + [('X', '100'), ('M', 'XYZ'), ('F', '110H'), ('M', '80H'), ('m', '100'), ('f', 'lj'), ('M', '300'), ('F', '2000SC')]
+    # stir: every pair — the unknown ones too — is scored once before its inverse is asked for (a refused or answered
+    # score() must leave nothing behind that changes what performance() answers)
+    for g_, e_ in pairs:
+        for v_ in (12.34, 1.0):
+            try: athlib.athlon_score(g_, e_, v_)
+            except Exception: pass
     # stir first: the boys' 800 m marks that the sweep below will score are scored with the English Schools option
     # beforehand — the answers of the plain calls must not depend on that (they are judged in the sweep)
     for s_ in range(1, 1501, 3):
@@ -75,8 +81,8 @@ def run(ctx):
             if viol is None:
                 viol = 'differs from the exact inverse'
         if viol:
-            ctx.fail('athlib.athlon_performance_needed', [g, e, s], mo, im, note=viol,
-                     replay_py='p = athlib.athlon_performance_needed(%r, %r, %r)\nresult = (p, athlib.athlon_score(%r, %r, p))' % (g, e, s, g, e))
+            ctx.fail('athlib.athlon_performance_needed', [g, e, s], mo, im, note=viol + ' (athlon_score had been called for this pair earlier in the process)',
+                     replay_py='athlib.athlon_score(%r, %r, 12.34)\np = athlib.athlon_performance_needed(%r, %r, %r)\nresult = (p, athlib.athlon_score(%r, %r, p))' % (g, e, g, e, s, g, e))
     # ---- the same targets in another numeric form, and the boys' 800 m after calls with the English Schools option
     nform = 0
     by = {rq: im for rq, im in zip(reqs, impl)}
